@@ -224,11 +224,11 @@ func scriptName(ss [][]op) string {
 func main() {
 	rep := kit.New("C19", "model_checking")
 	alpha := []op{{"a", 1}, {"a", 2}, {".a", 2}, {"b", 1}}
-	nthreads, maxLen, bound := 2, 2, 2
+	nthreads, maxLen, bound := 2, 2, 3
 	model_ := vrt.CostDelay
 	if rep.Thorough() {
 		alpha = []op{{"a", 1}, {"a", 2}, {".a", 2}, {".a", 3}, {"b", 1}, {"a", 0}}
-		bound = 3
+		bound = 4
 	}
 	all := scripts(alpha, maxLen)
 	var scns []*vrt.Scenario
